@@ -1,6 +1,7 @@
 #!/bin/sh
 # setup_cmd: build the whole framework from files on disk (offline).
-cd /verif || exit 1
+V=$(cd "$(dirname "$0")/.." && pwd)
+cd "$V" || exit 1
 export GOFLAGS=-mod=mod GOPROXY=off GOSUMDB=off GOTOOLCHAIN=local
 check/gomod.sh
 mkdir -p build/bin evidence
@@ -9,11 +10,11 @@ for d in harness/cmd/*/; do
   n=$(basename "$d")
   (cd harness && timeout 1800 go build -tags verif -o ../build/bin/"$n" ./cmd/"$n") || { echo "setup: driver $n failed to build"; rc=1; }
 done
-python3 - <<'PY' || rc=1
+python3 - "$V" <<'PY' || rc=1
 import sys
-sys.path.insert(0, "/verif/check")
+sys.path.insert(0, sys.argv[1] + "/check")
 import check
 check.coq_project()
 PY
-(cd coq && timeout 3000 make -j16 -k >/verif/build/coq-make.log 2>&1) || { echo "setup: coq make reported errors (see build/coq-make.log)"; tail -30 /verif/build/coq-make.log; rc=1; }
+(cd coq && timeout 3000 make -j16 -k >"$V/build/coq-make.log" 2>&1) || { echo "setup: coq make reported errors (see build/coq-make.log)"; tail -30 "$V/build/coq-make.log"; rc=1; }
 exit $rc
